@@ -10,6 +10,9 @@ open Nima.C05
 #print axioms rm_attrpath_refines
 #print axioms set_fresh_goes_last
 #print axioms set_attrpath_entry_appended
+#print axioms specSet_nodup
+#print axioms specRemove_nodup
+#print axioms keys_preserved
 #print axioms docNestedFamily_wf
 #print axioms cex_nested_family
 #print axioms cex_rendered_follows
